@@ -350,7 +350,7 @@ func cmdCheck(args []string) int {
 			}
 			continue
 		}
-		boundedSamples = append(boundedSamples, map[string]any{"check": br.Check.Name, "bound": fmt.Sprintf("all strings up to length %d over an 11-letter alphabet", br.Check.MaxLen), "evaluations": br.Evaluations, "ok": br.OK})
+		boundedSamples = append(boundedSamples, map[string]any{"check": br.Check.Name, "bound": boundText(br.Check), "evaluations": br.Evaluations, "ok": br.OK})
 		if !br.OK {
 			os.MkdirAll(replayDir, 0o755)
 			path := filepath.Join(replayDir, sanitize(br.Check.Name)+".json")
@@ -398,7 +398,8 @@ func cmdCheck(args []string) int {
 			"discharged":                           discharged + restricted,
 			"discharged_unrestricted":              discharged,
 			"discharged_restricted_known_findings": restricted,
-			"bounded":                              0,
+			"bounded":                              len(boundedSamples),
+			"bounded_checks":                       boundedSamples,
 			"checker_cmd":                          *cmdline,
 			"trusted_base":                         tb,
 			"samples":                              samples,
@@ -420,8 +421,8 @@ func cmdCheck(args []string) int {
 		b, _ := json.MarshalIndent(ev, "", " ")
 		os.WriteFile(*evidence, b, 0o644)
 	}
-	fmt.Printf("property=%s tier=%s functions=%d obligations=%d discharged=%d restricted=%d failed=%d covers=%d/%d solver_ms=%d wall_s=%.1f\n",
-		*prop, *tier, len(funcsUnder), nObl, discharged, restricted, len(violations), coverOK, covers, solverMs, time.Since(t0).Seconds())
+	fmt.Printf("property=%s tier=%s functions=%d obligations=%d discharged=%d restricted=%d failed=%d covers=%d/%d bounded=%d solver_ms=%d wall_s=%.1f\n",
+		*prop, *tier, len(funcsUnder), nObl, discharged, restricted, len(violations), coverOK, covers, len(boundedSamples), solverMs, time.Since(t0).Seconds())
 	return exit
 }
 
@@ -444,4 +445,11 @@ func syntheticFailure(k string, s *FuncSpec, prop string, why string) *Obligatio
 	return &Obligation{Name: key + "/contract-verifiable/1", Kind: "contract-verifiable", Props: []string{prop}, Func: k,
 		Text: why, Where: s.Where, Goal: "false",
 		Result: &SolveResult{Status: "unknown", Backend: "none", Output: why, All: map[string]string{}}}
+}
+
+func boundText(c *BoundedCheck) string {
+	if c.Kind == "gotest" {
+		return "exhaustive enumeration coded in " + c.Target + " (" + c.TestName + ")"
+	}
+	return fmt.Sprintf("all strings up to length %d over an 11-letter alphabet", c.MaxLen)
 }
